@@ -595,7 +595,7 @@ def _build2():
         "C04",
         "exploration",
         "TMPL-SIM part: parametrized templates (variables in arbitrary numeric positions, expressions, mappable registers) are persisted through the abstract repr / legacy JSON at seeded instants of a build history, restored, and original and restored template are built under the same assignments: the built sequences must be identical (or both refuse); the template's abstract repr must be schema-valid; the history continues on the restored template",
-        {"mappable_p": 0.3, "lift_p": 0.55, "hist_len": 8, "only_prefix": "C04", "hist_kinds": {"build": 3, "bad": 1, "str": 0.3, "abstract": 0.5, "sibling": 0.5, "restart": 6, "cache": 0.2}},
+        {"mappable_p": 0.3, "lift_p": 0.55, "hist_len": 8, "only_prefix": "C04", "hist_kinds": {"build": 3, "bad": 1, "str": 0.3, "abstract": 0.5, "sibling": 0.5, "restart": 6, "built_restart": 3, "cache": 0.2}},
         assumptions=["AbstractReprError for constructs the format documents as unsupported is an accepted outcome"],
         expected_probes=["template_restart_abstract", "template_restart_legacy", "template_schema_validated"],
     )
